@@ -2,7 +2,7 @@
 # usage: seed_eval.sh <ID-N> [tier]      e.g. C08-1
 # 1. verifies the seeded change in a scratch worktree (demo passes clean, tests same with patch, demo fails with patch)
 # 2. runs the owning check against a scratch copy of /repo with the patch applied (PYIKEV2_REPO), never touching /repo
-S=$1; TIER=${2:-quick}; ID=${S%%-*}
+S=$1; TIER=${2:-quick}; ID=${CHECK_ID:-${S%%-*}}
 SRC=/tmp/seed-out/$S
 [ -d /verif/seeded/$S ] && SRC=/verif/seeded/$S
 [ -f $SRC/patch.diff ] || { echo "no patch for $S"; exit 2; }
